@@ -6,7 +6,7 @@ from datetime import datetime, timedelta
 import numpy as np
 
 from tradingenv.env import TradingEnv
-from tradingenv.contracts import ETF, ES, Cash
+from tradingenv.contracts import ETF, ES, Cash, AbstractContract
 from tradingenv.spaces import BoxPortfolio
 from tradingenv.transmitter import Transmitter
 from tradingenv.events import EventNBBO
@@ -37,7 +37,7 @@ ASSUMPTIONS = ["zero interest rate (interest is C06) so that the ledger knows th
                "ending in Broker.net_liquidation_value while the account is insolvent"]
 REQUIRED = ["C09:interest-ruin-reached", "C09:nonraising-valuation-is-current", "C09:insolvent-decision-trades-nothing", "C09:valuation-raises-iff-nonpositive", "C09:refused-after-end",
             "C09:reset-reenables", "C09:control-stays-solvent", "C09:exact-zero-is-insolvent"]
-REQUIRED_CATS = ["a-decision-refused-earlier-in-the-episode", "second-episode-on-same-environment", "short-valued-at-zero-quote-before-rally", "scenario:interest-ruin", "broker-level:insolvent", "ruin:latent", "ruin:nonlatent", "severity:exact-zero", "severity:below", "severity:far-below", "severity:control",
+REQUIRED_CATS = ["another-environment-trades-the-same-future", "a-decision-refused-earlier-in-the-episode", "second-episode-on-same-environment", "short-valued-at-zero-quote-before-rally", "scenario:interest-ruin", "broker-level:insolvent", "ruin:latent", "ruin:nonlatent", "severity:exact-zero", "severity:below", "severity:far-below", "severity:control",
                  "first-step", "later-step", "spot-long", "spot-short", "margined"]
 REQUIRED_HITS = ["Broker.transact", "Broker.rebalance", "Broker.net_liquidation_value"]
 TECHNIQUE = "runtime monitoring with fault injection: ruining price paths at every position of a step; ledger replay decides decision-time NLV; transact hook proves no trade"
@@ -275,6 +275,17 @@ def case(ctx, i, tier):
                      broker_fees=fees, initial_cash=cash0)
     if ghost:
         ctx.cat("a-decision-refused-earlier-in-the-episode")
+    other = None
+    if kind == "margined" and rng.random() < 0.35:
+        # ANOTHER environment, with data of its own, trades the same future at other prices and is stepped in between
+        # the steps of the one under test (a training and an evaluation environment in one process)
+        p_other = p0 * rng.choice([0.6, 1.5])
+        tr_o = Transmitter(grid)
+        tr_o.add_events([EventNBBO(t_, c, p_other, p_other) for t_ in grid])
+        other = TradingEnv(action_space=BoxPortfolio([c], lo, hi), transmitter=tr_o, initial_cash=cash0)
+        other.reset()
+        other_done = False
+        ctx.cat("another-environment-trades-the-same-future")
     sink.env = env
     ctx.cat(kind, "ruin:" + where, "severity:" + severity, "first-step" if jr == 0 else "later-step",
             "reward:" + type(rw).__name__)
@@ -339,6 +350,12 @@ def case(ctx, i, tier):
                     except Exception:
                         pass
                     consume()
+                if other is not None and not other_done and episode_nr == 0:
+                    try:
+                        other_done = other.step(np.array([rng.choice([-0.5, 0.5])]))[2]
+                    except Exception:
+                        other_done = True
+                    AbstractContract.now = env.now() or AbstractContract.now
                 h0 = env.broker.holdings_quantity
                 n0 = len(env.broker.track_record)
                 tx0 = mon.n_transact
